@@ -1,15 +1,15 @@
 #!/bin/sh
 # Build the overlay venv used by every check: /venv's interpreter and packages
-# (boltons is an editable install resolving to /repo) + CrossHair and z3 from the
-# offline wheelhouse.  Idempotent; no network.
+# (boltons is an editable install resolving to /repo) + CrossHair, z3 and the cvc5 1.4
+# Python wheel (much stronger on QF_FP than the 1.0 binary) from the offline wheelhouse.  Idempotent; no network.
 set -e
 cd "$(dirname "$0")"
 V=.venv
-if [ ! -x "$V/bin/python" ] || ! "$V/bin/python" -c 'import crosshair, z3' 2>/dev/null; then
+if [ ! -x "$V/bin/python" ] || ! "$V/bin/python" -c 'import crosshair, z3, cvc5' 2>/dev/null; then
     rm -rf "$V"
     /venv/bin/python -m venv "$V"
     SP=$("$V/bin/python" -c 'import sysconfig; print(sysconfig.get_paths()["purelib"])')
     echo "import site; site.addsitedir('/venv/lib/python3.12/site-packages')" > "$SP/_base.pth"
-    PIP_NO_INDEX=1 "$V/bin/pip" install -q --no-index --find-links /opt/veriftools/wheels crosshair-tool z3-solver >/dev/null
+    PIP_NO_INDEX=1 "$V/bin/pip" install -q --no-index --find-links /opt/veriftools/wheels crosshair-tool z3-solver cvc5 >/dev/null
 fi
-"$V/bin/python" -c 'import crosshair, z3, boltons; print("venv ok", z3.get_version_string(), boltons.__file__)'
+"$V/bin/python" -c 'import crosshair, z3, cvc5, boltons; print("venv ok", z3.get_version_string(), "cvc5", cvc5.__version__, boltons.__file__)'
